@@ -53,22 +53,22 @@ def run_one(backend, prog, prefix):
         MockStorage.lock_dict = {}
         st = MockStorage({})
         trace = ("fixtures/mock_storage.py",)
-    ids = [st.create("t1", b"0"), st.create("t1", b"1")]
-    base = {("t1", ids[0]): b"0", ("t1", ids[1]): b"1"}
     s = thrx.Sched(prefix, trace_files=trace, step_limit=3000)
-    thrx.CUR = s
+    thrx.CUR = None
     if backend == "sqlite":
         st._mutex = thrx.ShimLock()
     else:
         from cloudsync.tests.fixtures.mock_storage import MockStorage
         MockStorage.top_lock = thrx.ShimLock()
-        orig_gis = st._get_internal_storage
 
         def gis(tag):
             with MockStorage.top_lock:
                 lock = MockStorage.lock_dict.setdefault(tag, thrx.ShimLock())
             return lock, st.storage_dict.setdefault(tag, dict())
         st._get_internal_storage = gis
+    ids = [st.create("t1", b"0"), st.create("t1", b"1")]
+    base = {("t1", ids[0]): b"0", ("t1", ids[1]): b"1"}
+    thrx.CUR = s
     hist = []       # (thread, op index, op, call step, return step, result)
     programs = PROGRAMS[prog]
 
